@@ -138,7 +138,7 @@ MUTANTS = [
     _m('truncate-size', VB1, """return f"{nbits}'({value})\"""", """return f"{nbits-1}'({value})\"""", 'R-tr-slice'),
     _m('struct-part-select-inclusive', VS1, "              f'{base_signal}[{stop-1}:{start}]',",
        "              f'{base_signal}[{stop}:{start}]',", 'R-tr-slice'),
-    # re-introduction of the repaired defect (sext of an array element); stale on a tree without the repair
+    # re-introduction of the repaired defect (sext of an array element)
     _m('sext-index-always-one-bit', VB1, "      _one_bit = current_nbits == 1\n", "      _one_bit = True\n", 'R-tr-slice'),
     # R-tr-width-cast
     _m('number-unsized', VB1, """return f"{nbits}'d{node.value}\"""", """return f"{node.value}\"""", 'R-tr-width-cast'),
@@ -210,6 +210,33 @@ MUTANTS = [
 ]
 
 EQUIV = [
+    # loop / comprehension / map spellings of `one value per item, in order`
+    _m('connections-as-comprehension', T.G_S1,
+       "    connections = []\n    _connections = m.get_metadata( StructuralRTLIRGenL1Pass.connections )\n    for writer, reader in _connections:\n"
+       "      connections.append( s.rtlir_tr_connection(\n        s.rtlir_signal_expr_translation( writer, m, 'writer' ),\n"
+       "        s.rtlir_signal_expr_translation( reader, m, 'reader' )\n      ) )\n",
+       "    _connections = m.get_metadata( StructuralRTLIRGenL1Pass.connections )\n    connections = [\n      s.rtlir_tr_connection(\n"
+       "        s.rtlir_signal_expr_translation( writer, m, 'writer' ),\n        s.rtlir_signal_expr_translation( reader, m, 'reader' )\n"
+       "      ) for writer, reader in _connections\n    ]\n"),
+    _m('connections-as-map-lambda', T.G_S1,
+       "    connections = []\n    _connections = m.get_metadata( StructuralRTLIRGenL1Pass.connections )\n    for writer, reader in _connections:\n"
+       "      connections.append( s.rtlir_tr_connection(\n        s.rtlir_signal_expr_translation( writer, m, 'writer' ),\n"
+       "        s.rtlir_signal_expr_translation( reader, m, 'reader' )\n      ) )\n",
+       "    _connections = m.get_metadata( StructuralRTLIRGenL1Pass.connections )\n    connections = list( map( lambda wr: s.rtlir_tr_connection(\n"
+       "        s.rtlir_signal_expr_translation( wr[0], m, 'writer' ),\n        s.rtlir_signal_expr_translation( wr[1], m, 'reader' )\n"
+       "      ), _connections ) )\n"),
+    _m('freevars-as-comprehension', T.G_B1,
+       "    freevars = []\n    for name, (fvar, rtype) in s.behavioral.freevars[m].items():\n      freevars.append( s.translate_freevar( name, fvar, rtype ) )\n",
+       "    freevars = [ s.translate_freevar( name, fvar, rtype )\n                 for name, (fvar, rtype) in s.behavioral.freevars[m].items() ]\n"),
+    _m('signal-expr-pairs-as-append-loop', T.SGEN1,
+       "    connections = [ (gen_signal_expr(m, x[0]), gen_signal_expr(m, x[1])) for x in ordered_conns ]\n",
+       "    connections = []\n    for x in ordered_conns:\n      connections.append( (gen_signal_expr(m, x[0]), gen_signal_expr(m, x[1])) )\n"),
+    _m('block-statements-as-comprehension', T.SV_B[1],
+       "    for stmt in node.body:\n      body.extend( s.visit( stmt ) )\n",
+       "    body = [ line for stmt in node.body for line in s.visit( stmt ) ]\n", count='first'),
+    _m('assign-statements-as-append-loop', T.SV_B[1],
+       "    return [ tplt.format(\n      target = target, assignment_op = assignment_op, value = value\n    ) for target in reversed(targets) ]\n",
+       "    stmts = []\n    for target in reversed(targets):\n      stmts.append( tplt.format( target = target, assignment_op = assignment_op, value = value ) )\n    return stmts\n"),
     _m('slice-upper-commuted', VB1, "upper = str( int( node.upper._value - 1 ) )", "upper = str( int( -1 + node.upper._value ) )"),
     _m('truncate-cast-on-equal-width', VB1, "if isinstance(dtype, rdt.Vector) and dtype.get_length() > nbits:",
        "if isinstance(dtype, rdt.Vector) and dtype.get_length() >= nbits:"),
